@@ -369,6 +369,78 @@ def worker(job):
     return {"violations": ck.violations, "evaluations": ck.evaluations, "distinct": sorted(ck.distinct)}
 
 
+def reentry_histories(ck, rng):
+    """ReentryGuard.tla: histories of outer calls (some refused with an exception raised inside the wrapped method) replayed
+    on the real feature-subset / spin-symmetrised kernels; every successful call must equal a FRESH object's."""
+    r = run_tlc("ReentryGuard", "MC_ReentryGuard.cfg", workers=2, timeout=300)
+    if r.error:
+        raise MachineryError("TLC ReentryGuard: " + r.error)
+    ck.add_tlc("ReentryGuard", r)
+    for v in r.violated:
+        ck.violation("model:ReentryGuard:" + v, {})
+    rb = run_tlc("ReentryGuard", "MC_ReentryGuard_bug.cfg", workers=1, timeout=300)
+    if "SelectedOnce" not in rb.violated and "IdleUnlocked" not in rb.violated:
+        raise MachineryError("negative control ReentryGuard: a guard kept on the error path violates nothing (%s)" % rb.violated)
+    hists = sorted({tuple(tuple(op) for op in h) for h in tlc_printed_values(r.out, "RG_HIST")})
+    if len(hists) < 100:
+        raise MachineryError("ReentryGuard printed %d histories" % len(hists))
+    hists = [h for h in hists if any(o == "refused" for _, o in h) and h[-1][1] == "ok"] + [h for h in hists if all(o == "ok" for _, o in h)][:5]
+    ls2 = np.array([0.6, 0.9])
+    makers = {
+        "SubsetRBFiso": lambda: K.SubsetRBF([2, 0], length_scale=0.7),
+        "SubsetRBFaniso": lambda: K.SubsetRBF([2, 0], length_scale=ls2.copy()),
+        "SubsetRBFslice": lambda: K.SubsetRBF(slice(1, 3), length_scale=ls2.copy()),
+        "SubsetARBF": lambda: K.SubsetARBF([3, 0, 2], order=2, length_scale=np.array([0.5, 0.8, 1.1]), scale=[0.3, 0.6, 1.0]),
+        "SubsetAddRQ": lambda: K.SubsetAddRQ([3, 1], order=2, alpha=1.7, length_scale=ls2.copy(), scale=[0.3, 0.6, 1.0]),
+        "SpinSymRBFiso": lambda: K.SpinSymRBF([0, 1], [2, 3], length_scale=0.8),
+        "SpinSymRBFaniso": lambda: K.SpinSymRBF([0, 1], [2, 3], length_scale=ls2.copy()),
+        "SpinSymARBF": lambda: K.SpinSymARBF([0, 1], [2, 3], order=2, length_scale=ls2.copy(), scale=[0.3, 0.6, 1.0]),
+    }
+    X, Y = rng.uniform(size=(5, NFEAT)), rng.uniform(size=(3, NFEAT))
+    bad = rng.uniform(size=(3, 1))          # too few columns: the column selection / the base kernel refuses it
+
+    def ok_op(k, m):
+        if m == "call":
+            return [k(X.copy(), Y.copy())]
+        if m == "diag":
+            return [k.diag(X.copy())]
+        return list(k.k_and_deriv(X.copy(), Y.copy()))
+
+    def refused_op(k, m, variant):
+        if m == "call":
+            return k(X.copy(), Y.copy(), eval_gradient=True) if variant else k(X.copy(), bad.copy())
+        if m == "diag":
+            return k.diag(bad.copy())
+        return k.k_and_deriv(X.copy(), bad.copy())
+    for name, mk in makers.items():
+        try:
+            ref = {m: ok_op(mk(), m) for m in ("call", "diag", "k_and_deriv")}
+        except Exception as ex:
+            raise MachineryError("ReentryGuard replay: reference for %s failed: %r" % (name, ex))
+        for hi, h in enumerate(hists):
+            k = mk()
+            ck.count(key=("reentry", name, h))
+            for step, (m, outcome) in enumerate(h):
+                if outcome == "refused":
+                    try:
+                        refused_op(k, m, (hi + step) % 2)
+                    except Exception:
+                        pass
+                    continue
+                try:
+                    got = ok_op(k, m)
+                except Exception as ex:
+                    ck.violation("reentry:%s:%s-raises-after-refused-call" % (name, m), {"history": [list(o) for o in h], "step": step, "msg": repr(ex)[:200]},
+                                 {"kernel": name, "history": [list(o) for o in h]})
+                    break
+                err = max(float(np.abs(a - b).max()) if a.shape == b.shape else np.inf for a, b in zip(got, ref[m]))
+                if not err <= 1e-12:
+                    ck.violation("reentry:%s:%s-differs-from-fresh-object" % (name, m), {"history": [list(o) for o in h], "step": step, "err": err},
+                                 {"kernel": name, "history": [list(o) for o in h]})
+                    break
+    ck.log("ReentryGuard: %d histories x %d kernels replayed" % (len(hists), len(makers)))
+
+
 def main():
     ck = Check("C15", "exploration")
     rng = np.random.default_rng(ck.seed)
@@ -427,6 +499,7 @@ def main():
         ck.distinct |= set(res["distinct"])
     ck.sample({"tree": trees[len(trees) // 2][0], "layout": trees[len(trees) // 2][1], "ntheta": trees[len(trees) // 2][2]})
     dftkernel_checks(ck, rng)
+    reentry_histories(ck, rng)
     ck.assumptions = ["leaf kernels with the constructor arguments of the repository's own kernel test cases + anisotropic/fixed RBF, constant, white, linear, antisymmetric, partial RBF",
                       "non-integer powers are outside the property (not PSD preserving)", "PSD tolerance 1e-9 relative to the largest eigenvalue"]
     return ck.finish()
